@@ -116,7 +116,7 @@ def streams(rng, tier):
     # exactly at the end (a disagreement with the model on a successful decode is a failing input)
     from verifkit.props import C01
     typed = C01.typed_mutation_streams(rng, tier)
-    return [s1, s2, s3, iter_stream(rng, tier)] + typed
+    return [s1, s2, s3, iter_stream(rng, tier), reuse_stream(rng, tier)] + typed
 
 
 def judge_iter(op, impl, model, spec):
@@ -175,7 +175,60 @@ def iter_stream(rng, tier):
     return st
 
 
+REUSE_WHAT = ["vu8", "vvs", "dq", "bh", "mu", "hm", "a3", "t2", "ou", "s", "int", "tok", "ai1", "mi1", "bi1", "toks3", "probe", "skip", "dt",
+              "x-f64", "x-f32", "x-f16", "x-u64", "x-u8", "x-i32", "x-str", "x-bytes", "x-array", "x-map", "x-tag", "x-bool", "x-char", "x-bytes_iter", "x-str_iter"]
+
+
+def judge_reuse(op, impl, model, spec):
+    n = len(op.split(" ")[2].split(","))
+    return "ok" if impl == f"{n} -" else "violation"
+
+
+def reuse_stream(rng, tier):
+    """one Decoder object through a long script of decodes at chosen positions vs a fresh decoder per step."""
+    def arr(vals, indef=False):
+        body = b"".join(vals)
+        return (b"\x9f" + body + b"\xff") if indef else gen.head(4, len(vals)) + body
+    u = lambda v: gen.head(0, v)
+    t = lambda b: gen.head(3, len(b)) + b
+    pool = [arr([u(1), u(2), u(3)]), arr([u(1), u(200), u(3)], True), arr([u(1), t(b"x"), u(3)]), arr([u(1), u(300), u(3)]),          # the 3rd and 4th fail as Vec<u8> half way
+            arr([arr([t(b"a"), t(b"bc")]), arr([])]), arr([arr([t(b"a"), u(5)])]), arr([gen.head(7, 22), u(9)]), arr([u(7), gen.head(7, 22)]),
+            gen.head(5, 2) + u(1) + u(2) + u(3) + u(4), gen.head(5, 2) + u(1) + u(2) + u(3) + t(b"no"), b"\xbf" + u(1) + arr([u(1)]) + b"\xff",
+            gen.head(5, 1) + u(1) + arr([u(1), t(b"z")]), arr([u(5), arr([u(1), u(2)])]), arr([u(5), arr([u(1), t(b"q")])]),
+            b"\xfb" + bytes.fromhex("3ff8000000000000"), b"\xfb" + bytes.fromhex("c004000000000001"), b"\xfa" + bytes.fromhex("3fc00000"), b"\xf9\x3e\x00",
+            gen.head(0, 2**32, 8), gen.head(1, 70000, 4), gen.head(1, 5), u(23), u(24), t(b"hello"), t("é€".encode()), gen.head(2, 3) + b"\x01\x02\x03",
+            b"\x5f\x41\x01\x42\x02\x03\xff", b"\x7f\x61a\x61b\xff", gen.head(6, 55799) + u(1), b"\xf6", b"\xf5", gen.head(4, 3) + u(1),
+            gen.head(4, 2**40, 8) + u(1), b"\x9f" + u(1), gen.head(5, 2**33, 8), b"\x18"]
+    ops = []
+    for _ in range(60 if tier == "quick" else 1500):
+        buf, starts = b"", []
+        if rng.random() < 0.5:
+            buf = b"\xfb" + bytes.fromhex("3ff8000000000000"); starts.append(0)        # an input that BEGINS with a full double / long head
+        for _ in range(rng.randint(4, 14)):
+            starts.append(len(buf)); buf += rng.choice(pool)
+        steps = []
+        for _ in range(rng.choice([40, 150, 300, 400])):
+            pos = rng.choice(starts) if rng.random() < 0.9 else rng.randint(0, len(buf))
+            steps.append(f"{pos}:{rng.choice(REUSE_WHAT[:19]) if rng.random() < 0.7 else rng.choice(REUSE_WHAT)}")
+        ops.append(f"reuse {buf.hex()} {','.join(steps)}")
+    # the same failing container decode over and over on one object, then well-formed ones
+    for bad, good, what in ((pool[2], pool[0], "vu8"), (pool[5], pool[4], "vvs"), (pool[9], pool[8], "mu"), (pool[13], pool[0], "t2"), (pool[31], pool[0], "a3")):
+        for k in (100, 127, 128, 129, 200, 300, 1000):
+            buf = bad + good
+            ops.append(f"reuse {buf.hex()} " + ",".join([f"0:{what}"] * k + [f"{len(bad)}:{what}", f"{len(bad)}:vu8", f"{len(bad)}:ai1", "0:skip"]))
+            ops.append(f"reuse {buf.hex()} " + ",".join([f"0:ai1", f"0:mi1"] * k + [f"{len(bad)}:{what}", f"{len(bad)}:vu8"]))
+    st = Stream("decoder-reuse", "hcore", ops, model_ops=["nop"] * len(ops), judge=judge_reuse,
+                rule="reuse: ONE Decoder through scripts of 40..1000 steps (set_position, then a typed decode / accessor / abandoned iterator / probe / tokens; "
+                     "many of them failing half way through a container) vs a fresh decoder per step: a decoder is its input and a position, nothing that "
+                     "happened earlier on the object may change an answer (no model op: what a fresh decoder answers is what every other stream judges)",
+                nontrivial=lambda op, impl: impl.endswith(" -"))
+    st.shrinkable = False
+    return st
+
+
 def replay_streams(rp):
+    if rp["original_op"].startswith("reuse"):
+        return [Stream("replay", "hcore", [rp["original_op"]], model_ops=["nop"], judge=judge_reuse)]
     if rp["original_op"].startswith("aiter"):
         return [Stream("replay", "hcore", [rp["original_op"]], judge=judge_iter)]
     return [Stream("replay", "hcore", [rp["original_op"]], judge=judge)]
